@@ -28,8 +28,8 @@ func init() {
 	tours["slots"] = []func(*core.Result, *core.RNG) (*sim, error){slotsTour}
 	tours["weeks"] = []func(*core.Result, *core.RNG) (*sim, error){weeksTour}
 	tours["restart"] = []func(*core.Result, *core.RNG) (*sim, error){restartTour, restartFaultTour}
-	tours["equip"] = []func(*core.Result, *core.RNG) (*sim, error){equipTour, keyReuseTour, keyReuseBanTour}
-	tours["register"] = []func(*core.Result, *core.RNG) (*sim, error){registerTour, registerRaceTour, damagedKeyTour}
+	tours["equip"] = []func(*core.Result, *core.RNG) (*sim, error){equipTour, keyReuseTour, keyReuseBanTour, keyReuseAfterBanTour}
+	tours["register"] = []func(*core.Result, *core.RNG) (*sim, error){registerTour, registerRaceTour, damagedKeyTour, zeroKeyTour, archiveBeforeRegistrationTour}
 	tours["hostile"] = []func(*core.Result, *core.RNG) (*sim, error){hostileTour, shutdownTour}
 }
 
@@ -421,6 +421,40 @@ func keyReuseBanTour(res *core.Result, r *core.RNG) (*sim, error) {
 	return s, nil
 }
 
+// a key freed by a ban is used again for a new id (legitimate: the key is not live any more); the
+// start-up replay of the authorization log must give the same lookup whatever order it visits ids in,
+// so the state is compared over several restarts
+func keyReuseAfterBanTour(res *core.Result, r *core.RNG) (*sim, error) {
+	s, err := started(res, r, "equip-reuse-after-ban", 300, false, 1000, 1000, 1000)
+	if err != nil {
+		return s, err
+	}
+	for _, d0 := range append([]*device{}, s.a.Devices...) {
+		eb := d0.Auth
+		eb.Debt += 5
+		eb.Signature = s.w.Sign(eb.SigningBytes(), s.a.GCA)
+		s.authorize(eb, "conflict-field")
+		d := s.newDevice(1500)
+		d.K = d0.K
+		d.Auth = s.mkAuth(d, s.a.GCA)
+		if ob := s.authorize(d.Auth, "new"); strings.Contains(ob, "Accepted true") {
+			s.a.Devices = append(s.a.Devices, d)
+			s.send(d, s.w.Now, 640)
+		}
+	}
+	s.res.Count("equip.key-reused-after-ban")
+	s.w.SnapHop()
+	for i := 0; i < 5 && s.alive; i++ {
+		s.restart(s.w.Now)
+		for _, d := range s.liveDevices() {
+			if found, _, _ := s.w.Recent(d.K.Pub, "after restart"); !found {
+				s.fail(fmt.Sprintf("after a restart the recent reports of live device %d (whose key belonged to a device banned earlier) are not found by its key", d.ID), "c06-lookup-lost-after-restart")
+			}
+		}
+	}
+	return s, nil
+}
+
 // ---------------------------------------------------------------- C07
 func registerTour(res *core.Result, r *core.RNG) (*sim, error) {
 	s, err := newSim(res, r, "register-tour", 10, true)
@@ -482,6 +516,42 @@ func damagedKeyTour(res *core.Result, r *core.RNG) (*sim, error) {
 	} else if started && !sn.GCAAvailable {
 		s.fail("a registered server whose key file lost a byte starts with the registration open again: the temporary-key holder can install another GCA key", "c07-registration-reopened")
 	}
+	return s, nil
+}
+
+// the first accepted registration names the all-zero key: the server is registered like with any other
+// key (later registrations bounce, also after a restart)
+func zeroKeyTour(res *core.Result, r *core.RNG) (*sim, error) {
+	s, err := newSim(res, r, "register-zero", 10, true)
+	if err != nil {
+		return nil, err
+	}
+	s.register("zero-key")
+	for _, k := range []string{"valid", "other-valid", "zero-key"} {
+		s.register(k)
+	}
+	s.restart(s.w.Now)
+	for _, k := range []string{"valid", "other-valid"} {
+		s.register(k)
+	}
+	return s, nil
+}
+
+// an archive is requested from a server nobody has registered yet (the request is refused, the key file
+// does not exist), the server restarts, and then its GCA registers: the registration is accepted
+func archiveBeforeRegistrationTour(res *core.Result, r *core.RNG) (*sim, error) {
+	s, err := newSim(res, r, "register-after-archive", 10, true)
+	if err != nil {
+		return nil, err
+	}
+	for _, m := range []string{"GET", "GET"} {
+		s.w.Raw(m, "/api/v1/archive", nil)
+	}
+	s.res.Count("register.after-archive-and-restart")
+	s.restart(s.w.Now)
+	s.register("valid")
+	s.addDevice(1000)
+	s.restart(s.w.Now)
 	return s, nil
 }
 
